@@ -47,12 +47,21 @@ func (s *S) GE() (int, error) {
 	return s.g + 7, nil
 }
 
+// GEN is an error-returning getter that can only stand in the MIDDLE of a source path (GEN().A).
+func (s *S) GEN() (N, error) {
+	if err := tr.HitErr("gen1"); err != nil {
+		return N{}, err
+	}
+	return s.M, nil
+}
+
 type D struct {
 	X int
 	Y int
 	Z int
 	M N2
 	W int
+	V int
 }
 
 func C1(i int) (int, error) {
@@ -97,6 +106,9 @@ func TC(i int) (int, *tr.Err) {
 }
 
 func Pre(d *D, s *S) error  { return tr.HitErr("pre") }
+
+// Pre2 hands the destination back next to its error: not one of the documented hook shapes.
+func Pre2(d *D, s *S) (*D, error) { return d, tr.HitErr("pre2") }
 func Post(d *D, s *S) error { return tr.HitErr("post") }
 `
 
@@ -110,17 +122,23 @@ type c07Meta struct {
 	Sites   []string
 }
 
-var c07SiteNames = []string{"pre", "conv1", "conv2", "nconv1", "nconv2", "ge1", "post", "nnconv1", "tconv1"}
-var c07SiteNotes = []string{":preprocess Pre", ":conv C1 A X", ":conv C2 B Y", ":conv NC C M.A", ":conv NC2 A M.C", ":map GE() Z", ":postprocess Post", ":conv NNC B M.L.W", ":conv TC C W"}
+var c07SiteNames = []string{"pre", "conv1", "conv2", "nconv1", "nconv2", "ge1", "post", "nnconv1", "tconv1", "pre2", "gen1"}
+var c07SiteNotes = []string{":preprocess Pre", ":conv C1 A X", ":conv C2 B Y", ":conv NC C M.A", ":conv NC2 A M.C", ":map GE() Z", ":postprocess Post", ":conv NNC B M.L.W", ":conv TC C W", ":preprocess Pre2", ":map GEN().A V"}
 
 func familyC07() []*scen.Cell {
 	var cells []*scen.Cell
-	scen.Odometer([]int{2, 2, 2, 2, 2, 2, 2, 2, 2, 2, 2, 2}, func(d0 []int) {
-		// digits: 7 classic sites, depth-2 site, typed-error site, style, dstptr, merr
-		d := append(append([]int(nil), d0[:7]...), d0[9], d0[10], d0[11])
-		present := append(append([]int(nil), d0[:7]...), d0[7], d0[8])
+	scen.Odometer([]int{2, 2, 2, 2, 2, 2, 2, 2, 2, 2, 2, 2, 2, 2}, func(d0 []int) {
+		// digits: 7 classic sites, depth-2 site, typed-error site, (T, error) hook, mid-path error getter, style, dstptr, merr
+		d := append(append([]int(nil), d0[:7]...), d0[11], d0[12], d0[13])
+		present := append([]int(nil), d0[:11]...)
 		if d0[8] == 1 && (d0[7] == 1 || d0[0]+d0[6] > 0) {
 			return // the typed-error site is combined with converters only
+		}
+		if d0[9] == 1 && (d0[0] == 1 || d0[7]+d0[8]+d0[10] > 0) {
+			return // the (T, error) hook takes the place of the plain preprocess hook
+		}
+		if d0[10] == 1 && d0[7]+d0[8] > 0 {
+			return
 		}
 		k := 0
 		for _, p := range present {
@@ -177,7 +195,7 @@ func init() {
 			setup = strings.Replace(setup, "package x\n", "package x\n\nimport \"example.com/m/tr\"\n", 1)
 			cells = append(cells, &scen.Cell{ID: fmt.Sprintf("c07x_%d", i), Family: "C07-static-extras", Files: map[string]string{"setup.go": setup}, Meta: c07Extra{}})
 		}
-		e.Rep.Rule("functions with k = 1..5 error-capable call sites drawn from {preprocess hook, two top-level :conv, two nested-path :conv, :map of an error-returning getter, postprocess hook} (plus a depth-2 nested :conv and a converter whose error result is a concrete type; all subsets of size 1..5) x style {return, arg} x destination {value, pointer} x method {with, without error result}; " +
+		e.Rep.Rule("functions with k = 1..5 error-capable call sites drawn from {preprocess hook, two top-level :conv, two nested-path :conv, :map of an error-returning getter, postprocess hook} (plus a depth-2 nested :conv, a converter whose error result is a concrete type, a preprocess hook returning (T, error), and :map of a path with an error-returning getter in the MIDDLE; all subsets of size 1..5) x style {return, arg} x destination {value, pointer} x method {with, without error result}; " +
 			"dynamic: every function with an error result is run under ALL 2^k subsets of failing sites; each site returns its own sentinel error; oracle: with i the first site in the observed trace whose bit is set, the function returns exactly that sentinel and the trace ends at i; no executed site failing => nil error; " +
 			"static: a method without error result must be rejected or leave the path unmatched - an accepted output must not call any error-returning site; non-trivial = fault plan with a failing site")
 		br, err := e.newBehaveRunner()
@@ -227,7 +245,7 @@ func init() {
 					return nil
 				}
 				var fs []report.Finding
-				for _, fn := range []string{"C1(", "C2(", "NC(", "NC2(", "NNC(", ".GE()", "Pre(", "Post("} {
+				for _, fn := range []string{"C1(", "C2(", "NC(", "NC2(", "NNC(", ".GE()", "Pre(", "Post(", "Pre2(", ".GEN()"} {
 					body := bodyOnly(o.Out)
 					if strings.Contains(body, fn) {
 						fs = append(fs, report.Finding{Key: "C07|error-site-in-function-without-error-result|" + strings.Trim(fn, "(."), What: "method has no error result but the generated function calls the error-returning " + fn + ")"})
@@ -236,6 +254,12 @@ func init() {
 				t.Outcome("no-error-result: accepted")
 				t.Family("C07-static", true, true)
 				return fs
+			}
+			if o.Res.Exit != 0 && m.Present[9] == 1 {
+				// a hook returning (T, error) is not a documented shape: refusing it is one way of not wiring it
+				t.Family("C07-two-result-hook", false, true)
+				t.Outcome("two-result-hook: rejected")
+				return nil
 			}
 			if o.Res.Exit != 0 && m.Present[8] == 1 {
 				// a callee whose error result is a concrete type may be refused: refusing is one way of not wiring it
